@@ -10,13 +10,20 @@ SPEC = {
         'model_module': 'Model.C14_Push', 'imports': ['From Wesh Require Import Model.Store Model.C02_Ratchet.'],
         'shard': 60, 'timeout': 900,
     }, {
+        'name': 'concurrent', 'pkg': './pkg/secretstore', 'test': 'TestVerifC02Concurrent',
+        'files': [('pkg/secretstore', 'harness/secretstore/zz_verif_common_test.go'),
+                  ('pkg/secretstore', 'harness/secretstore/zz_verif_c14_test.go'),
+                  ('pkg/secretstore', 'harness/secretstore/zz_verif_c02conc_test.go')],
+        'model_module': 'Model.C14_Push', 'imports': ['From Wesh Require Import Model.Store Model.C02_Ratchet.'],
+        'shard': 60, 'timeout': 600,
+    }, {
         'name': 'service', 'pkg': '.', 'test': 'TestVerifC14Service',
         'files': [('.', 'harness/root/zz_verif_meta_common_test.go'),
                   ('.', 'harness/root/zz_verif_c14svc_test.go')],
         'model_module': 'Model.C14_Push', 'imports': ['From Wesh Require Import Model.Store Model.C02_Ratchet.'],
         'shard': 60, 'timeout': 900, 'search_n': 300,
     }],
-    'rule': 'window stream: UpdateOutOfStoreGroupReferences on a fresh store for counters below N, near 2^64 and random, probing the '
+    'rule': 'concurrent stream (oracle only, shared with C02): a log open and a push open of the same message at once on a store whose datastore delays every access at random: both must succeed and the window must have moved as for one opening; window stream: UpdateOutOfStoreGroupReferences on a fresh store for counters below N, near 2^64 and random, probing the '
             'stored references at and around both window edges; session stream: random sessions on a real SecretStore mixing '
             'registration, log delivery (followed by the reference update MessageStore performs) and push delivery of the same '
             'messages in every order, 1-2 senders, three group types, windows 1-3 with 1-4 references and the defaults 100/100, '
